@@ -21,6 +21,13 @@ pub fn add_trace<T, F: FnOnce() -> String>(res: NRes<T>, thing: F, start: CodeLo
     ensures res is Ok ==> r == res, res is Err ==> r is Err
 { unimplemented!() }
 impl Default for Obj { #[verifier::external_body] fn default() -> (r: Obj) ensures r == Obj::Null { unimplemented!() } }
+#[verifier::external_body]
+pub fn soft_from_utf8(bs: Vec<u8>) -> (r: Obj) { unimplemented!() }
+impl StreamBox {
+    // dyn Stream::pythonic_index_isize (iteration / forcing); not verified here
+    #[verifier::external_body]
+    pub fn pythonic_index_isize(&self, i: isize) -> (r: NRes<Obj>) { unimplemented!() }
+}
 impl Clone for Obj { #[verifier::external_body] fn clone(&self) -> (r: Obj) ensures r == *self { unimplemented!() } }
 pub uninterp spec fn truthy_spec(o: Obj) -> bool;
 impl Obj {
